@@ -94,17 +94,22 @@ Definition once_why_page (c : box * pnode * list (kind * Z)) : list (Z * nat) :=
    ink: per box id the colour number of its background, border and text (negative = that paint leaves no ink:
    transparent, hidden, zero width, blank).  The harness gives two tables: what the implementation's draw_* calls
    produce for a paint event (model side) and what CSS prescribes (specification side). *)
-Fixpoint lookup3 (tbl : list (Z * (Z * Z * Z))) (id : Z) : Z * Z * Z :=
+Fixpoint lookup3 (tbl : list (Z * (Z * list Z * Z))) (id : Z) : Z * list Z * Z :=
   match tbl with
-  | [] => (-1, -1, -1)
+  | [] => (-1, [], -1)
   | (k, v) :: r => if k =? id then v else lookup3 r id
   end.
-Definition ink_of (tbl : list (Z * (Z * Z * Z))) (e : event) : list Z :=
+(* a border may be painted side by side (bottom, left, right, top) in different colours: a list *)
+Definition ink_of (tbl : list (Z * (Z * list Z * Z))) (e : event) : list Z :=
   match e with
   | EPaint id ly =>
       let '(bg, bd, tx) := lookup3 tbl id in
-      let c := match ly with LBg => bg | LBorder => bd | LContent => tx | LOutline => -1 end in
-      if c <? 0 then [] else [c]
+      match ly with
+      | LBg => if bg <? 0 then [] else [bg]
+      | LBorder => bd
+      | LContent => if tx <? 0 then [] else [tx]
+      | LOutline => []
+      end
   | _ => []
   end.
 Fixpoint dedup (l : list Z) : list Z :=
@@ -112,9 +117,9 @@ Fixpoint dedup (l : list Z) : list Z :=
   | a :: ((b :: _) as r) => if a =? b then dedup r else a :: dedup r
   | _ => l
   end.
-Definition ink_seq (tbl : list (Z * (Z * Z * Z))) (l : list event) : list Z := dedup (flat_map (ink_of tbl) l).
+Definition ink_seq (tbl : list (Z * (Z * list Z * Z))) (l : list event) : list Z := dedup (flat_map (ink_of tbl) l).
 
-Definition display_judge (c : box * list (Z * (Z * Z * Z)) * list (Z * (Z * Z * Z)) * list Z) : nat :=
+Definition display_judge (c : box * list (Z * (Z * list Z * Z)) * list (Z * (Z * list Z * Z)) * list Z) : nat :=
   let '(page, tbl_model, tbl_spec, observed) := c in
   let obs := dedup observed in
   ((if list_eqb Z.eqb (ink_seq tbl_model (paint_ctx (from_page (binfo page) (bkids page)))) obs then 0 else 1) +
